@@ -7,7 +7,7 @@ import itertools
 import networkx as nx
 import dynetx as dn
 
-from .core import Model, histories, run_history, state_key, Collector, NODES, T_LO, T_HI
+from .core import Model, histories, run_history, state_key, Collector, NODES, T_LO, T_HI, qs_of
 from .parts_core import QS, dump, check_canonical, check_snapshots, check_stream, timelines
 
 
@@ -213,7 +213,7 @@ def c02_queries(tier, seed):
                     'nodes; every query entry point (methods and dn.* forms, nbunch subsets with an unknown node) at every t in -1..6 and t=None compared '
                     'with networkx on the static graph {(u,v): present at t}; non-trivial = distinct (state) with an interaction', max_violations=6)
     n_states = 0
-    for cls, removal, h in histories(tier, seed, n_random=300 if tier == 'quick' else 3000):
+    for cls, removal, h in histories(tier, seed, modes=(True, False), n_random=300 if tier == 'quick' else 3000):
         G, M, outs = run_history(cls, removal, h)
         if any(o[0] != o[1] for o in outs):
             continue
@@ -222,15 +222,17 @@ def c02_queries(tier, seed):
         n_states += 1
         if n_states % 3 == 0:
             G.add_node(7, colour='red')          # isolated node with attributes
-        for q in (QS[1:-2] if tier == 'thorough' else QS[1:-2:1]) + [None]:
+        for q in qs_of(M)[1:-1] + [None]:
             compare_queries(G, M, q, col, cls, removal, h)
         # get_node_snapshots
         for n in sorted(G._node):
             exp = [q for q in M.instants() if any(n in k for k in M.edges_at(q))]
+            if not removal:
+                continue
             _cmp(col, 'C02.get_node_snapshots', cls, removal, h, 'get_node_snapshots(%r)' % n, _try(lambda: G.get_node_snapshots(n)), exp)
-        if n_states > (400 if tier == 'quick' else 4000):
+        if n_states > (1600 if tier == 'quick' else 12000):
             break
-    return col.result(bound='<=3 nodes (+1 isolated), instants 0..4, histories <=4 calls, t in -1..6 and None')
+    return col.result(bound='<=3 nodes (+1 isolated), instants 0..4 (also shifted by -3 / +1000, and 2-node histories over 0..12), histories <=7 calls, both modes, t around every instant and None')
 
 
 # ---------------------------------------------------------------------------------------------- C06
@@ -263,7 +265,8 @@ def c06_time_slice(tier, seed):
         for n in list(G._node):
             G._node[n]['w'] = n * 10
         before = dump(G)
-        rng = range(T_LO - 1, T_HI + 3)
+        inst = M.instants()
+        rng = range(min(inst) - 1, min(max(inst) + 3, min(inst) + 9))
         for a in rng:
             for b in [None] + [x for x in rng if x >= a]:
                 col.seen((sk, a, b), True, {'class': cls, 'history': h, 'window': [a, b]})
@@ -278,13 +281,13 @@ def c06_time_slice(tier, seed):
                     col.violation('C06.class', cls, removal, h, 'slice has class %s' % H.__class__.__name__, window=[a, b])
                 for k in M.keys():
                     for (x, y) in ([k] if M.directed else [k, k[::-1]]):
-                        for q in QS:
+                        for q in qs_of(M):
                             if bool(H.has_interaction(x, y, q)) != M2.present(x, y, q):
                                 col.violation('C06.presence_inside_window', cls, removal, h,
                                               'time_slice(%r,%r).has_interaction(%r,%r,%r) = %r, expected %r' % (a, b, x, y, q, H.has_interaction(x, y, q), M2.present(x, y, q)), window=[a, b])
                 if M.directed:
                     for k in M.keys():
-                        if (k[1], k[0]) not in M.pres and any(H.has_interaction(k[1], k[0], q) for q in QS):
+                        if (k[1], k[0]) not in M.pres and any(H.has_interaction(k[1], k[0], q) for q in qs_of(M)):
                             col.violation('C06.orientation', cls, removal, h, 'slice contains the reverse of %r' % (k,), window=[a, b])
                 if sorted(H.nodes()) != sorted(M2.nodes):
                     col.violation('C06.nodes_are_endpoints', cls, removal, h, 'time_slice(%r,%r).nodes() = %r, endpoints %r' % (a, b, sorted(H.nodes()), sorted(M2.nodes)), window=[a, b])
@@ -314,7 +317,7 @@ def c06_time_slice(tier, seed):
                                 continue
                             M3 = sliced_model(M, lo, hi) if lo <= hi else Model(M.directed, True)
                             for k in M.keys():
-                                for q in QS:
+                                for q in qs_of(M):
                                     if bool(HH.has_interaction(k[0], k[1], q)) != M3.present(k[0], k[1], q):
                                         col.violation('C06.slice_of_slice', cls, removal, h,
                                                       'slice[%r,%r] of slice[%r,%r]: pair %r at %r is %r, intersection says %r' % (c, d, a, bb, k, q, HH.has_interaction(k[0], k[1], q), M3.present(k[0], k[1], q)),
@@ -327,7 +330,7 @@ def c06_time_slice(tier, seed):
                     pass
                 except Exception as ex:
                     col.violation('C06.invalid_window_raises', cls, removal, h, 'time_slice(%r,%r) raised %r, not ValueError' % (a, b, ex), window=[a, b])
-        if col.full() or n_states > (150 if tier == 'quick' else 1500):
+        if col.full() or n_states > (400 if tier == 'quick' else 3000):
             break
     return col.result(bound='<=3 nodes, instants 0..4, histories <=4 calls, windows in -1..6')
 
@@ -382,11 +385,11 @@ def c16_conversions(tier, seed):
                 col.violation('C16.nodes_kept', cls, removal, h, '%s: nodes %r, source has %r' % (name, sorted(H.nodes()), sorted(G.nodes())), call=[name, kw])
             for a in sorted(G._node):
                 for b in sorted(G._node):
-                    for q in QS:
+                    for q in qs_of(M):
                         if bool(H.has_interaction(a, b, q)) != M2.present(a, b, q):
                             # finding D09b: to_directed creates only the orientation in which the undirected pair is listed
                             d09b = (name == 'to_directed' and M2.present(a, b, q) and not H.has_interaction(a, b) and
-                                    all(bool(H.has_interaction(b, a, qq)) == M2.present(b, a, qq) for qq in QS))
+                                    all(bool(H.has_interaction(b, a, qq)) == M2.present(b, a, qq) for qq in qs_of(M)))
                             col.violation('C16.presence', cls, removal, h,
                                           '%s(%r).has_interaction(%r,%r,%r) = %r, expected %r' % (name, kw, a, b, q, H.has_interaction(a, b, q), M2.present(a, b, q)),
                                           call=[name, kw], d09=d09b)
@@ -403,12 +406,92 @@ def c16_conversions(tier, seed):
                     H._node[n].setdefault('tags', []).append('mutated')
                 H.graph.setdefault('meta', {}).setdefault('k', []).append(2)
                 H.add_interaction(1, 2, 5000)
+                for (a_, b_), tl_ in list(timelines(H).items()):
+                    if tl_[-1][1] < 4000:
+                        H.add_interaction(a_, b_, tl_[-1][1] + 1, tl_[-1][1] + 3)     # grows the latest run in place
             except Exception as ex:
                 col.violation('C16.result_usable', cls, removal, h, 'mutating the result raised %r' % (ex,), call=[name, kw])
             if dump(G) != before or G.graph.get('meta') != {'k': [1]}:
                 col.violation('C16.deep_copy_isolation', cls, removal, h, 'mutating the result of %s changed the source (%r)' % (name, G.graph), call=[name, kw])
                 G.graph['meta'] = {'k': [1]}
                 before = dump(G)
-        if col.full() or n_states > (400 if tier == 'quick' else 4000):
+        if col.full() or n_states > (1500 if tier == 'quick' else 8000):
             break
-    return col.result(bound='<=3 nodes (+1 isolated), instants 0..4, histories <=4 calls')
+    return col.result(bound='<=3 nodes (+1 isolated), instants 0..4 (also shifted, and 2-node multi-run histories over 0..12), histories <=7 calls')
+
+
+# ---------------------------------------------------------------------------------------------- C03 (derived graphs)
+
+def c03_derived_constructors(tier, seed):
+    """every graph the library itself produces from a reachable graph has canonical timelines that are its own"""
+    import json
+    import os
+    import shutil
+    import tempfile
+    from dynetx.readwrite import json_graph
+    col = Collector('reachable states of the C01 history space (incl. shifted and multi-run histories) x the library\'s own constructors: time_slice '
+                    '(5 windows), to_directed / to_undirected(reciprocal False, True), read_snapshots(write_snapshots), read_interactions(write_interactions), '
+                    'node_link_graph(json round trip): every timeline of the result must be canonical (sorted, disjoint, non-adjacent, start<=end), the two '
+                    'directions of an undirected pair must share it, and no interval object may be shared with the source graph; '
+                    'non-trivial = distinct (state, constructor) with an interaction', max_violations=6)
+    tmp = tempfile.mkdtemp(prefix='c03d')
+    try:
+        n_states = 0
+        for cls, removal, h in histories(tier, seed, n_random=200 if tier == 'quick' else 3000):
+            G, M, outs = run_history(cls, removal, h)
+            if any(o[0] != o[1] for o in outs) or not M.keys():
+                continue
+            sk = state_key(G)
+            if sk in col.distinct:
+                continue
+            col.distinct.add(sk)
+            n_states += 1
+            directed = G.is_directed()
+            inst = M.instants()
+            lo, hi = min(inst), max(inst)
+            made = []
+            for (a, b) in ((lo, hi), (lo + 1, hi - 1), (lo, lo), (hi, hi), (lo - 1, lo + 1)):
+                if a <= b:
+                    made.append(('time_slice(%d,%d)' % (a, b), lambda a=a, b=b: G.time_slice(a, b)))
+            if directed:
+                made.append(('to_undirected()', lambda: G.to_undirected()))
+                made.append(('to_undirected(reciprocal=True)', lambda: G.to_undirected(reciprocal=True)))
+            else:
+                made.append(('to_directed()', lambda: G.to_directed()))
+
+            def via_snapshots():
+                p = os.path.join(tmp, 's.txt')
+                dn.write_snapshots(G, p)
+                return dn.read_snapshots(p, nodetype=int, timestamptype=int, directed=directed)
+
+            def via_interactions():
+                p = os.path.join(tmp, 'i.txt')
+                dn.write_interactions(G, p)
+                return dn.read_interactions(p, nodetype=int, timestamptype=int, directed=directed)
+
+            def via_json():
+                return json_graph.node_link_graph(json.loads(json.dumps(json_graph.node_link_data(G))))
+            made += [('read_snapshots(write_snapshots)', via_snapshots), ('read_interactions(write_interactions)', via_interactions),
+                     ('node_link_graph(node_link_data)', via_json)]
+            src_ids = set(id(iv) for tl in timelines(G).values() for iv in tl) | set(id(tl) for tl in timelines(G).values())
+            for name, mk in made:
+                col.seen((sk, name), True, {'class': cls, 'history': h, 'constructor': name})
+                try:
+                    H = mk()
+                except Exception as ex:
+                    col.violation('C03.derived.no_exception', cls, removal, h, '%s raised %r' % (name, ex), constructor=name)
+                    continue
+                MH = model_of(H)
+                check_canonical(H, MH, col, H.__class__.__name__, removal, h, check='C03.derived.canonical_timeline')
+                if col.violations and col.violations[-1]['check'] == 'C03.derived.canonical_timeline' and 'constructor' not in col.violations[-1]:
+                    col.violations[-1]['constructor'] = name
+                shared = [k for k, tl in timelines(H).items() if id(tl) in src_ids or any(id(iv) in src_ids for iv in tl)]
+                if shared:
+                    col.violation('C03.derived.timeline_objects_not_shared_with_source', cls, removal, h,
+                                  '%s: the result stores interval objects of the source graph for %r (a later add to either graph changes both)' % (name, shared[:2]),
+                                  constructor=name)
+            if col.full() or n_states > (300 if tier == 'quick' else 3000):
+                break
+    finally:
+        shutil.rmtree(tmp, ignore_errors=True)
+    return col.result(bound='<=3 nodes, instants 0..4 (also shifted / 2-node multi-run over 0..12), histories <=7 calls, 8-9 constructors per state')
